@@ -125,7 +125,8 @@ def _draw_job(draw, prof, wild, wide=False):
         critical=chance(draw, prof.p_critical), forever=forever,
         c=draw(weighted(prof.cs)), sd=draw(weighted(prof.sds)),
         hkey=draw(st.integers(0, prof.hkeys - 1)), tkey=draw(st.integers(0, prof.tkeys - 1)),
-        late_attrs=chance(draw, prof.p_late_attrs))
+        late_attrs=chance(draw, prof.p_late_attrs),
+        flagform='alt' if chance(draw, 10) else 'bool')
 
 
 def _fix_late_critical(job):
@@ -262,7 +263,9 @@ def _draw_sched(draw, prof, depth, under_timeout, budget, top=False):
         members=members, edges=edges,
         order=(list(draw(st.permutations(list(range(n))))) if 1 < n <= 12
                else sorted(range(n), key=lambda i: (i * 7919 + 13) % 1009)),
-        build=draw(weighted((('ctor', 3), ('add', 2), ('update', 1), ('mixed', 1)))),
+        build=draw(weighted((('ctor', 3), ('add', 2), ('update', 1), ('mixed', 1),
+                             ('scheduler=', 1)))),
+        flagform='alt' if chance(draw, 10) else 'bool',
         wild=wild, late_attrs=chance(draw, prof.p_late_attrs),
         watch=chance(draw, prof.p_watch))
     if chance(draw, prof.p_label):
@@ -327,6 +330,8 @@ def scenarios(draw, prof=GENERAL):
     top['inspect'] = chance(draw, prof.p_inspect)
     top['prelude'] = chance(draw, prof.p_prelude)
     top['latefill'] = chance(draw, prof.p_latefill)
+    if chance(draw, 3):
+        top['watch_age'] = draw(st.sampled_from([1500, 90000]))    # an old Watch
     if len(top['members']) > 40:
         # quadratic inspection / re-wiring work on hundreds of members buys nothing
         top['inspect'] = False
